@@ -51,6 +51,13 @@ BASES = {
         [('A', 'SEQUENCE { x Fixed, y Free, z Ranged }'), ('Fixed', 'SEQUENCE { data T (SIZE (2)), n N (1..2) }'),
          ('Free', 'SEQUENCE { data T, n N }'), ('Ranged', 'SEQUENCE { data T (SIZE (0..1)), n N (0..1) }'),
          ('T', 'OCTET STRING'), ('N', 'INTEGER')]),
+    # DEFAULT on a member whose type is reached through a chain of references (two hops): in the
+    # split-import-minimal arrangement the second hop is private to the exporting module
+    'defaults-by-chain': (
+        'AUTOMATIC TAGS',
+        [('A', 'SEQUENCE { b B1 DEFAULT TRUE, o O1 DEFAULT \'0102\'H, e E1 DEFAULT two, z INTEGER (0..7) }'),
+         ('B1', 'B2'), ('B2', 'BOOLEAN'), ('O1', 'O2'), ('O2', 'OCTET STRING (SIZE(0..2))'),
+         ('E1', 'E2'), ('E2', 'ENUMERATED { one, two }')]),
     'chain': (
         'AUTOMATIC TAGS',
         [('A', 'SEQUENCE { r R1, k INTEGER (0..3) }'), ('R1', 'R2'), ('R2', 'R3 (1..6)'), ('R3', 'INTEGER (0..7, ...)')]),
